@@ -135,8 +135,9 @@ def replay_src(seq):
             'for fn, a, b, ef in %r:\n'
             '    try:\n'
             '        with contextlib.redirect_stdout(io.StringIO()):\n'
-            '            r = U.schema_valid(a, validator=getattr(jsonschema, b), expect_failure=ef) if fn == "sv" '
-            'else U.valid_against_schema(a, b, expect_failure=ef)\n'
+            '            pos = (len(a) + len(b)) %% 2 == 1      # the harness gives half of the calls positionally\n'
+            '            if fn == "sv": r = U.schema_valid(a, getattr(jsonschema, b), ef) if pos else U.schema_valid(a, validator=getattr(jsonschema, b), expect_failure=ef)\n'
+            '            else: r = U.valid_against_schema(a, b, ef) if pos else U.valid_against_schema(a, b, expect_failure=ef)\n'
             '        out.append(repr(r))\n'
             '    except Exception as e:\n'
             '        out.append(type(e).__name__)\n'
